@@ -281,7 +281,9 @@ class CommentStyle:
         ):
             for i, line in enumerate(lines):
                 end = i
-                if line.endswith(cls.MULTI_LINE.end):
+                # Whitespace behind the end marker does not keep the comment
+                # open.
+                if line.rstrip().endswith(cls.MULTI_LINE.end):
                     break
             else:
                 raise CommentParseError("Comment block never delimits")
